@@ -345,7 +345,45 @@ fn run_sql_batch(ty: &str, vals: &[DataValue]) -> String {
             r.unwrap_or_else(|_| "panic".into())
         }
     };
-    format!("vals:{vals_back};kern:{kern};lt:{lt};eqjoin:{eqj};asc:{asc};desc:{desc};groups:{groups};distinct:{distinct};minmax:{mm}")
+    // top-N path: two-key ORDER BY with LIMIT/OFFSET on a table whose first key `g = id % 2` ties
+    // at the cut-off (the value column decides; smaller values may arrive late)
+    let topn = {
+        let create2 = format!("create table t2(id int, g int, v {})", sql_type(ty, vals));
+        let ok = matches!(run_sql(&rt, &db, &create2), Outcome::Ok(_))
+            && catch(|| {
+                rt.block_on(async {
+                    let id = db.verif_catalog().get_table_id_by_name("postgres", "t2").unwrap();
+                    let StorageImpl::InMemoryStorage(s) = db.verif_storage() else { panic!("storage") };
+                    let table = s.get_table(id).unwrap();
+                    let types: Vec<DataType> = table.columns().unwrap().iter().map(|c| c.data_type()).collect();
+                    let mut b = DataChunkBuilder::new(&types, vals.len() + 1);
+                    for (i, v) in vals.iter().enumerate() {
+                        let _ = b.push_row([DataValue::Int32(i as i32), DataValue::Int32(i as i32 % 2), v.clone()]);
+                    }
+                    let mut txn = table.write().await.unwrap();
+                    txn.append(b.take().unwrap()).await.unwrap();
+                    txn.commit().await.unwrap();
+                })
+            })
+            .is_ok();
+        if !ok {
+            "load-failed".to_string()
+        } else {
+            let n = vals.len();
+            let mut parts = vec![];
+            for (dir, lim, off) in [("a", 2usize, 0usize), ("a", 3, 1), ("a", n / 2, 2), ("d", 2, 0), ("d", 3, 2), ("m", 3, 1)] {
+                let order = match dir {
+                    "a" => "g, v",
+                    "d" => "g desc, v desc",
+                    _ => "g, v desc",
+                };
+                let o = q(&format!("select id from t2 order by {order} limit {lim} offset {off}"));
+                parts.push(format!("{dir}-{lim}-{off}={}", ids(&o, 1).replace(',', ".")));
+            }
+            parts.join(",")
+        }
+    };
+    format!("vals:{vals_back};kern:{kern};lt:{lt};eqjoin:{eqj};asc:{asc};desc:{desc};groups:{groups};distinct:{distinct};minmax:{mm};topn:{topn}")
 }
 
 // ---------------------------------------------------------------------------------------------
